@@ -75,11 +75,14 @@ DocCheckVisits(p) == IF HasValidation(p) THEN [i \in 1..(2 * Len(p)) |-> ((i - 1
 (* State of one machine object.                                            *)
 (***************************************************************************)
 Idle0 == [ms |-> "begin", chk |-> 0, run |-> 0, rmap |-> FALSE, pc |-> "idle", cur |-> <<>>,
-          idx |-> 0, round |-> 0, iter |-> 0, scale |-> 0, ns |-> 1, pend |-> FALSE,
+          idx |-> 0, round |-> 0, iter |-> 0, scale |-> 0, ns |-> 1, pend |-> FALSE, sub |-> "none",
           eff |-> <<>>, out |-> "none", err |-> "none"]
 
-Reset(s, out, err) == [s EXCEPT !.ms = "begin", !.chk = 0, !.run = 0, !.pc = "idle", !.pend = FALSE,
+Reset(s, out, err) == [s EXCEPT !.ms = "begin", !.chk = 0, !.run = 0, !.pc = "idle", !.pend = FALSE, !.sub = "none",
                                 !.out = out, !.err = err]
+
+\* a validation step configured with interpolated_disparity fills occlusions and mismatches after BOTH cross-checks
+Fills(stp) == stp.kind = "validation" /\ "fill" \in DOMAIN stp /\ stp.fill
 
 \* ---- configuration checking ------------------------------------------------------------------------
 CheckBegin(s, p) ==
@@ -134,7 +137,7 @@ Advance(s) == IF s.ms = "begin" \/ s.idx = Len(s.cur)
               ELSE [s EXCEPT !.idx = s.idx + 1]
 
 RunStepL(s) ==
-   IF s.pc = "run" /\ ~s.pend /\ s.iter <= s.ns /\ s.idx <= Len(s.cur)
+   IF s.pc = "run" /\ ~s.pend /\ s.sub = "none" /\ s.iter <= s.ns /\ s.idx <= Len(s.cur)
    THEN LET stp == s.cur[s.idx]
             en  == EnabledRun(s, stp.kind)
         IN IF s.run = 0 \/ en = {}
@@ -154,18 +157,30 @@ RunStepL(s) ==
 RunStepR(s) ==
    IF s.pc = "run" /\ s.pend
    THEN LET stp == s.cur[s.idx]
+            s1  == [s EXCEPT !.pend = FALSE, !.eff = Append(s.eff, <<s.idx, "R", s.scale>>),
+                             !.scale = IF stp.kind = "multiscale" THEN s.scale - 1 ELSE s.scale]
         IN {[lab |-> [ev |-> "RunCb", idx |-> s.idx, kind |-> stp.kind, side |-> "R", scale |-> s.scale],
-             st  |-> Advance([s EXCEPT !.pend = FALSE, !.eff = Append(s.eff, <<s.idx, "R", s.scale>>),
-                                        !.scale = IF stp.kind = "multiscale" THEN s.scale - 1 ELSE s.scale])]}
+             st  |-> IF Fills(stp) THEN [s1 EXCEPT !.sub = "fillL"] ELSE Advance(s1)]}
+   ELSE {}
+
+\* the filling sub-steps of a validation step: left map, then right map, both after the two cross-checks (each map is
+\* checked against the other one as the disparity step and its successors left it, never against a filled map)
+RunFill(s) ==
+   IF s.pc = "run" /\ s.sub = "fillL"
+   THEN {[lab |-> [ev |-> "RunSub", idx |-> s.idx, what |-> "fill", side |-> "L", scale |-> s.scale],
+          st  |-> [s EXCEPT !.sub = "fillR"]]}
+   ELSE IF s.pc = "run" /\ s.sub = "fillR"
+   THEN {[lab |-> [ev |-> "RunSub", idx |-> s.idx, what |-> "fill", side |-> "R", scale |-> s.scale],
+          st  |-> Advance([s EXCEPT !.sub = "none"])]}
    ELSE {}
 
 RunEnd(s) ==
-   IF s.pc = "run" /\ ~s.pend /\ s.iter > s.ns
+   IF s.pc = "run" /\ ~s.pend /\ s.sub = "none" /\ s.iter > s.ns
    THEN {[lab |-> [ev |-> "RunEnd", outcome |-> "ran", err |-> "none"], st |-> Reset(s, "ran", "none")]}
    ELSE {}
 
 \* all successors that do not start a new operation
-Internal(s) == CheckStep(s) \cup CheckRoundEnd(s) \cup RunStepL(s) \cup RunStepR(s) \cup RunEnd(s)
+Internal(s) == CheckStep(s) \cup CheckRoundEnd(s) \cup RunStepL(s) \cup RunStepR(s) \cup RunFill(s) \cup RunEnd(s)
 
 (***************************************************************************)
 (* Properties (C01).  Evaluated on state records so that they can be       *)
@@ -177,6 +192,6 @@ SequencingErrorNamed(s) == (s.pc = "idle" /\ s.out = "rejected" /\ AllOk(s.cur))
 CheckVisitsAll(s)   == (s.pc = "idle" /\ s.out = "accepted") => s.eff = DocCheckVisits(s.cur)
 RunsAsWritten(s)    == (s.pc = "idle" /\ s.out \in {"ran", "runfail"})
                           => (s.out = "ran" /\ s.eff = DocEffects(s.cur, s.ns))
-BackToInitial(s)    == s.pc = "idle" => (s.ms = "begin" /\ s.chk = 0 /\ s.run = 0)
+BackToInitial(s)    == s.pc = "idle" => (s.ms = "begin" /\ s.chk = 0 /\ s.run = 0 /\ s.sub = "none" /\ ~s.pend)
 TypeOK(s)           == s.ms \in MStates /\ s.pc \in {"idle", "check", "run"} /\ s.chk \in 0..1 /\ s.run \in 0..1
 =============================================================================
